@@ -31,8 +31,8 @@ var (
 	u64Pool      = []uint64{0, 1, 99, math.MaxInt64}
 	// struct side only: the Int64 attribute carries values above MaxInt64 as negative numbers and back
 	u64Struct = []uint64{0, 1, 99, math.MaxInt64, math.MaxInt64 + 1, math.MaxUint64}
-	f32Pool   = []float64{0, 1.5, -2.25, float64(float32(3.4e38)), float64(float32(1e-30))}
-	f64Pool   = []float64{0, 1.5, -2.25, 1e300, 2.5e-300}
+	f32Pool   = []float64{0, 1.5, -2.25, float64(float32(3.4e38)), float64(float32(1e-30)), float64(float32(0.1)), float64(float32(1) / 3), math.Inf(1), math.Copysign(0, -1)}
+	f64Pool   = []float64{0, 1.5, -2.25, 1e300, 2.5e-300, 0.1, 1.0 / 3, math.Inf(-1), math.Copysign(0, -1), math.MaxFloat64, math.SmallestNonzeroFloat64}
 	durPool   = []int64{0, 1, -1, int64(90 * time.Minute), math.MaxInt64}
 	timePool  = []time.Time{
 		{},
